@@ -139,7 +139,7 @@ class NFA:
         return g
 
 
-def build(body: Body, alpha: Alphabet, fx=None, depth=0, _prefix=(), _sinks=None, _stack=(), _into=None, _retval=False):
+def build(body: Body, alpha: Alphabet, fx=None, depth=0, _prefix=(), _sinks=None, _stack=(), _into=None, _retval=False, _consts=None):
     """Event automaton of `body`. With `fx` and depth > 0, unlabelled calls to crate-local functions and unlabelled
     awaits of crate-local coroutines whose own automaton contains call/done events are inlined (bounded depth, no
     recursion): extracting a helper out of a loop does not change the language."""
@@ -203,6 +203,12 @@ def build(body: Body, alpha: Alphabet, fx=None, depth=0, _prefix=(), _sinks=None
 
         if k == "call":
             lab = alpha.call_label(t)
+            if lab is None and t.get("callee") is None and t.get("fnplace") and _consts:
+                # a call through a function pointer that is a field of a parameter bound to an enum literal at the call
+                # site of this (spliced) body: `Successor::Fresh(A::default)` ... `Successor::Fresh(create) => create()`
+                fn_ = _bound_fn(body, t["fnplace"], _consts)
+                if fn_:
+                    lab = alpha.call_label(dict(t, callee=fn_))
             ev = ("call:" + lab) if lab else None
             if not top and t["dest"] == [0] and (t.get("callee") or "").endswith("FromResidual::from_residual"):
                 rty = body.locals[0]["ty"]
@@ -249,8 +255,18 @@ def build(body: Body, alpha: Alphabet, fx=None, depth=0, _prefix=(), _sinks=None
                         cb = Body(co)
                         if _interesting(cb, alpha):
                             sub = _prefix + ((body.name, bi),)
-                            build(cb, alpha, fx, depth - 1, sub, (tgt(b), cancel_s, unwind_s), _stack + (body.name,), n)
-                            n.add(cur, None, (sub, 0, 0), loc)
+                            # enum literals passed for parameters of the awaited async fn are fixed for this instance of
+                            # its body: announce them (the body's matches on those parameters follow suit)
+                            consts = _const_args(fx, body, ready[1])
+                            build(cb, alpha, fx, depth - 1, sub, (tgt(b), cancel_s, unwind_s), _stack + (body.name,), n, _consts=consts)
+                            entry = (sub, 0, 0)
+                            prev = cur
+                            for i_, (v_, _st) in sorted(consts.items()):
+                                mid = ("cbind", sub, i_)
+                                n.add(prev, "vset:%s#upvar%d|%s" % (cb.name, i_, v_), mid, loc)
+                                n.has_corr = True
+                                prev = mid
+                            n.add(prev, None, entry, loc)
                             continue
                 if corr.get(val):
                     mid = ("corr", _prefix, bi, val)
@@ -399,6 +415,44 @@ def _value_tests(body):
         vtsts[bi] = {val: "vtst:%s|{%s}" % (vid, ",".join(sorted(x for x in vs if x))) for val, vs in table.items()}
     body.__dict__["_vt_cache"] = (vsets, vtsts)
     return vsets, vtsts
+
+
+def _const_args(fx, body, poll_bb):
+    """{upvar index of the awaited async fn's coroutine: (variant, literal statement in `body`)} for arguments that are enum literals"""
+    out = {}
+    for o in body.polled_future_origins(poll_bb, plumbing=True):
+        if o.kind != "call":
+            return {}
+        ct = body.call_at(o)
+        for i, a in enumerate(ct.get("args", [])):
+            if a.get("k") not in ("move", "copy"):
+                continue
+            os_ = body.origins(a, through_calls=False)
+            if len(os_) == 1 and next(iter(os_)).kind == "agg" and not next(iter(os_)).proj:
+                st = body.blocks[next(iter(os_)).site[0]]["s"][next(iter(os_)).site[1]]
+                r = st["r"]
+                if r.get("ak") == "adt" and r.get("variant") and (r.get("def") or "").split("::")[0] not in ("core", "alloc", "std"):
+                    out[i] = (r["variant"], (body, st))
+    return out
+
+
+def _bound_fn(body, fnplace, consts):
+    for o in body.origins(fnplace, through_calls=False):
+        if o.kind != "upvar" or o.site not in consts:
+            return None
+        variant, (cbody, st) = consts[o.site]
+        fields = [e for e in o.proj if isinstance(e, str) and e.startswith("f") and e[1:].isdigit()]
+        downs = [e for e in o.proj if isinstance(e, str) and e.startswith("d") and ":" in e]
+        if not fields or (downs and downs[0].split(":", 1)[1] != variant):
+            return None
+        idx = int(fields[0][1:])
+        if idx >= len(st["r"]["ops"]):
+            return None
+        for x in cbody.origins(st["r"]["ops"][idx]):
+            if x.kind == "const" and isinstance(x.site, str) and "::" in x.site:
+                return x.site
+        return None
+    return None
 
 
 def _corr_labels(fx, body, t):
